@@ -188,7 +188,8 @@ def vacancy_part(ctx):
             ctx.case(('vac', name, t, str(d['eneT0'])), nontrivial=True)
             ctx.count('vacancy:' + name)
             _tensor_oracles(ctx, 'L0vv', ':' + name, L0vv, calc.crys, tol, rep)
-            _tensor_oracles(ctx, 'Lss', ':' + name, Lss, calc.crys, tol, rep)
+            # crystals with origin states: Lss is not exact along the site-vector-basis direction (finding F13), tagged so
+            _tensor_oracles(ctx, 'Lss', (':originstates:' if len(calc.OSindices) > 0 else ':') + name, Lss, calc.crys, tol, rep)
             _tensor_oracles(ctx, 'L1vv', ':' + name, L1vv, calc.crys, tol, rep, psd=False)
             axial = vc.has_invariant_axial(calc.crys)
             _tensor_oracles(ctx, 'Lsv', (':axial-group:' if axial else ':') + name, Lsv, calc.crys, tol, rep, psd=False)
